@@ -1,6 +1,18 @@
 """Which contracts decide which property."""
 
 PROPERTIES = {
+    "C09": dict(
+        contracts=[
+            ("contracts.layout", "ensure_access_granularity_contract"),
+            ("contracts.layout", "AddCyclicMemoryLayout_contract"),
+            ("contracts.layout", "AddCyclicMemoryLayout_keeps_explicit_layouts"),
+            ("contracts.tsl", "TSL_canonicalize"),
+            ("contracts.tsl", "TiledStride_canonicalize"),
+        ],
+        trusted_base=["paper lemma: steps super-increasing in some order of the levels (step_k >= 1 + sum_{j<k} (bound_j-1)*step_j) => the layout is one-to-one on digit vectors",
+                      "view of dart.ScheduleOp / snax.LayoutCast through the generic irdl stub (pyvc/stubs/irdl.py); PatternRewriter is a recorder",
+                      "assumed: spatial_dims() (accelerator template plumbing) returns the template's number of dimensions"],
+    ),
     "C16": dict(
         contracts=[
             ("contracts.scheduler", "scheduler_backtrack_fits_template"),
